@@ -49,7 +49,12 @@ PERSISTERS = {
     "tracker": P("update_tracker", "new_tracker"),
 }
 
-EXCEPTIONS = {}   # (function, class) -> reason; none needed today
+# (function, class) -> reason
+EXCEPTIONS = {
+    (LS + "channel::Channel::funding_signed", "tracker"):
+        "not a request entry point: called only by Node::unchecked_sign_onchain_tx, which holds the tracker and writes it "
+        "(update_tracker) after the last channel was told; the obligation is checked on that caller",
+}
 NOT_REQUESTS = ("::new", "::new_from_persistence", "::restore_node", "::restore_nodes", "::new_extended",
                 "::update_velocity_controls", "::new_full")
 
@@ -68,7 +73,7 @@ def r111(ctx):
                       "passes, after the mutation, the completion of that class's persister call")
     p = ctx.prog
     eff = effects.Effects(ctx, CLASSES)
-    du = effects.Durability(ctx, eff, PERSISTERS, exceptions=set(EXCEPTIONS),
+    du = effects.Durability(ctx, eff, PERSISTERS, exceptions=set(),
                             storage_pred=lambda n: any(f(n) for f in PERSISTERS.values()))
     eps = []
     for b in p.bodies.values():
